@@ -68,20 +68,68 @@ def task_local_frame(ctx):
 
 
 def _pair_setup(ngauss):
-    """pairs: O-C, O-H (special N/O-H form), N-H (special), C-H, H-H"""
+    """one pair of every kind the core-core formulas distinguish, over the classes {N, O, other heavy atom, H} of both partners:
+    O-C, O-H (special), N-H (special), C-H, H-H, N-C, N-N, O-N, O-O, C-C (the special N-H / O-H form must NOT reach the last five)"""
     from contracts.md_common import Obj
     from contracts.es_common import tore_table
 
-    Z = [8, 6, 8, 1, 7, 1, 6, 1, 1, 1]
-    idxi, idxj = [0, 2, 4, 6, 8], [1, 3, 5, 7, 9]
+    kinds = [(8, 6), (8, 1), (7, 1), (6, 1), (1, 1), (7, 6), (7, 7), (8, 7), (8, 8), (6, 6)]
+    Z = [z for pr in kinds for z in pr]
+    idxi, idxj = list(range(0, 2 * len(kinds), 2)), list(range(1, 2 * len(kinds), 2))
     ni = st.tensor([Z[i] for i in idxi])
     nj = st.tensor([Z[j] for j in idxj])
     const = Obj(tore=tore_table(), atomic_num=None)
-    alpha = st.symbolic((10,), "alpha")
-    K, L, M = st.symbolic((10, ngauss), "K"), st.symbolic((10, ngauss), "L"), st.symbolic((10, ngauss), "M")
-    rij = st.symbolic((5,), "rij")
-    gam = st.symbolic((5,), "gam")
+    alpha = st.symbolic((len(Z),), "alpha")
+    K, L, M = st.symbolic((len(Z), ngauss), "K"), st.symbolic((len(Z), ngauss), "L"), st.symbolic((len(Z), ngauss), "M")
+    rij = st.symbolic((len(kinds),), "rij")
+    gam = st.symbolic((len(kinds),), "gam")
     return Z, idxi, idxj, ni, nj, const, alpha, K, L, M, rij, gam
+
+
+def replay_core_core_pairs(model):
+    """real pair_nuclear_energy (AM1 parameters from the shipped tables) for one pair of each kind at 1.3 A against the published
+    formula evaluated in floats (special R exp(-alpha R) form for N-H and O-H only)."""
+    import math
+    import torch
+    from seqm.seqm_functions.energy import pair_nuclear_energy
+    from seqm.seqm_functions.constants import Constants
+    from seqm.basics import Pack_Parameters
+    import seqm.seqm_functions.constants as C
+
+    torch.set_default_dtype(torch.float64)
+    kinds = [(8, 6), (8, 1), (7, 1), (6, 1), (1, 1), (7, 6), (7, 7), (8, 7), (8, 8), (6, 6)]
+    Z = torch.tensor([z for pr in kinds for z in pr])
+    par = Pack_Parameters({"method": "AM1", "elements": [0, 1, 6, 7, 8], "learned": []})(Z, learned_params={})[0]
+    n = len(kinds)
+    idxi, idxj = torch.arange(0, 2 * n, 2), torch.arange(1, 2 * n, 2)
+    R_A = 1.3
+    rij = torch.full((n,), R_A / C.a0)
+    gam = torch.full((n,), 9.0)
+    K = torch.stack([par["Gaussian%d_K" % g] for g in range(1, 5)], dim=1)
+    L = torch.stack([par["Gaussian%d_L" % g] for g in range(1, 5)], dim=1)
+    M = torch.stack([par["Gaussian%d_M" % g] for g in range(1, 5)], dim=1)
+    const = Constants()
+    got = pair_nuclear_energy(Z, const, 1, Z[idxi], Z[idxj], idxi, idxj, rij, None, None, None, None, gam=gam, method="AM1", parameters=(par["alpha"], K, L, M))
+    rows, bad = [], False
+    for k, (za, zb) in enumerate(kinds):
+        a, b = 2 * k, 2 * k + 1
+        ZA, ZB = float(const.tore[za]), float(const.tore[zb])
+        al_a, al_b = float(par["alpha"][a]), float(par["alpha"][b])
+        ea = (R_A if (za in (7, 8) and zb == 1) else 1.0) * math.exp(-al_a * R_A)
+        eb = math.exp(-al_b * R_A)
+        want = ZA * ZB * 9.0 * (1.0 + ea + eb)
+        for at, zq in ((a, None), (b, None)):
+            pass
+        gs = 0.0
+        for at in (a, b):
+            for g in range(4):
+                gs += float(K[at, g]) * math.exp(-float(L[at, g]) * (R_A - float(M[at, g])) ** 2)
+        want += ZA * ZB / R_A * gs
+        dev = abs(float(got[k]) - want)
+        if dev > 1e-8 * max(1.0, abs(want)):
+            bad = True
+        rows.append({"pair": "%d-%d" % (za, zb), "pair_nuclear_energy": float(got[k]), "published_formula": want, "difference": float(got[k]) - want})
+    return {"reproduced": bad, "R_A": R_A, "rows": [r for r in rows if abs(r["difference"]) > 1e-8] or rows[:3]}
 
 
 def task_core_core(ctx):
@@ -102,7 +150,7 @@ def task_core_core(ctx):
             continue
         En = ex.paths[0].value
         expf = lambda z: Sym(E.fn("exp", E.node_of(z)))
-        for k in range(5):
+        for k in range(len(idxi)):
             a, b = idxi[k], idxj[k]
             ZA, ZB = real("tore%d" % Z[a]), real("tore%d" % Z[b])
             R = rij.a[k] * real("a0")
@@ -110,9 +158,9 @@ def task_core_core(ctx):
             gA = [(K.a[a, g], L.a[a, g], M.a[a, g]) for g in range(ng)]
             gB = [(K.a[b, g], L.a[b, g], M.a[b, g]) for g in range(ng)]
             want = nddo.core_core(method, ZA, ZB, gam.a[k], R, alpha.a[a], alpha.a[b], special, gA, gB, expf)
-            ctx.prove_eq("%s.pair[%d-%d]" % (method, Z[a], Z[b]), En.a[k], want)
+            ctx.prove_eq("%s.pair[%d-%d]" % (method, Z[a], Z[b]), En.a[k], want, replay=replay_core_core_pairs)
     ctx.canary_eq("special-form-matters", real("R") * Sym(E.fn("exp", (-real("al") * real("R")).n)), Sym(E.fn("exp", (-real("al") * real("R")).n)))
-    ctx.assume_note("shape: one pair of each kind O-C, O-H, N-H, C-H, H-H; all parameters, distances and (ss|ss) symbolic")
+    ctx.assume_note("shape: one pair of each kind O-C, O-H, N-H, C-H, H-H, N-C, N-N, O-N, O-O, C-C; all parameters, distances and (ss|ss) symbolic")
 
 
 def replay_pm6_core(model):
